@@ -1304,3 +1304,8 @@ package fpgo
 //@   invariant pruned: forallv(x, has(resultMap, x) == (has(countMap, x) && !(_visited(x) && countMap[x] < inputLen)))
 //@   invariant first: forallv(x, has(resultMap, x) && has(inputList[0], x) ==> resultMap[x] == inputList[0][x])
 //@ twin IntersectionMapByKey IntersectionMapByKeyForInterface
+
+// DistinctRandom: the distinct elements of the list, each once, in no particular order
+//@ func DistinctRandom
+//@   prop C05
+//@   ensures distinct-members: fresh(r0) && forall(i, 0, len(r0), exists(l, 0, len(list), list[l] == r0[i])) && forall(i, 0, len(r0), forall(j, 0, i, r0[j] != r0[i])) && forall(l, 0, len(list), exists(i, 0, len(r0), r0[i] == list[l]))
